@@ -298,6 +298,53 @@ def check_cubic(prop, tier, seed, work, t0):
                         replay_info={"harness": "cubic.cpp", "how": "./check C09 --replay <file>"})
 
 
+# ------------------------------------------------------------------------------------------ C12
+C12_RULE = ("workloads: NTT/INTT/extendPol configurations up to 2^6 (quick) / 2^8 (thorough) covering on-site and out-of-place bit reversal, zero-fill, blocked scatter and "
+            "the inverse last pass (all four reversePermutation branches and three write-back kinds must be seen through the hook), the eight Merkle builders with rows in "
+            "{1,2,4,8,64}, parcpy/parSetZero with sizes {0,1,7,64,65,1000,65539} and thread arguments incl. 0, -1, INT_MIN. (a) ThreadSanitizer build linked with the pthread "
+            "OpenMP stand-in, team sizes {1,2,3,4,7,16,33}, repeated with seeded start-up delays at region entry: every TSan report is a violation (happens-before analysis: a "
+            "conflicting pair is reported whether or not the members overlapped in time). (b) production flags + stand-in in sequential mode: all k! member orders for teams "
+            "<= 4 and seeded random orders above; (c) real libgomp with 1,2,3,4,8,16,33 threads; in (a),(b),(c) the output buffers must be bit-identical to the single-member "
+            "execution. evaluations = executions compared; distinct = workloads; all non-trivial (each enters >= 1 parallel region with > 1 member).")
+C12_REQUIRED = ["mode:threads", "mode:seq", "mode:libgomp", "hook:revperm:branch0", "hook:revperm:branch1", "hook:revperm:branch2", "hook:revperm:branch3",
+                "hook:ntt_pass:writeback0", "hook:ntt_pass:writeback1", "hook:ntt_pass:writeback2", "team:1", "team:2", "team:3", "team:4", "team:7", "team:8", "team:16", "team:33",
+                "team:nonpositive_thread_argument", "threads:runs_with_injected_startup_delays", "omp_shim:regions_with_permuted_member_order",
+                "omp_shim:distinct_team_member_orders(capped_8192_per_process)", "tsan:processes_completed"] + \
+    ["workload:" + w for w in ("NTT", "INTT", "extendPol", "merkletree_seq", "merkletree_avx", "merkletree_avx512", "merkletree", "merkletree_batch_seq",
+                               "merkletree_batch_avx", "merkletree_batch_avx512", "merkletree_batch", "parcpy", "parSetZero")]
+
+
+@reg("C12")
+def check_races(prop, tier, seed, work, t0):
+    if not vfw.have_avx512():
+        raise vfw.Inconclusive("this CPU has no AVX-512F; the AVX-512 Merkle builders cannot be executed")
+    libs = ["goldilocks_base_field.cpp", "goldilocks_cubic_extension.cpp", "ntt_goldilocks.cpp", "poseidon_goldilocks.cpp"]
+    bins = vfw.build_many(work, [{"name": "races-" + fl, "flavour": fl, "srcs": [H("races.cpp")], "libsrcs": libs} for fl in ("tsan512", "shim512", "prod512")])
+    check_shim_symbols(bins["races-tsan512"])
+    check_shim_symbols(bins["races-shim512"])
+    th = tier == "thorough"
+    to = 10800 if th else 1500
+    res = vfw.Results()
+    logbase = work.path("tsanlog")
+    r = vfw.run_shards(work, bins["races-tsan512"], prop, tier, seed, NCPU, ["--mode", "threads", "--nofork"], tag="tsan",
+                       env={"TSAN_OPTIONS": "halt_on_error=0:log_path=%s:history_size=4:report_signal_unsafe=0" % logbase}, expect_exit=(0, 66), timeout=to)
+    reports, nrep = vfw.parse_tsan_logs(logbase + ".*")
+    for key, excerpt in reports.items():
+        r.violations.setdefault("C12:" + key, {"report": excerpt, "_run": "tsan"})
+    r.counters["tsan:reports_total"] = nrep
+    r.counters["tsan:distinct_reports"] = len(reports)
+    r.counters["tsan:processes_completed"] = sum(1 for _ in range(NCPU)) if r.counters.get("mode:threads", 0) == NCPU else 0
+    res.merge(r)
+    res.merge(vfw.run_shards(work, bins["races-shim512"], prop, tier, seed, NCPU, ["--mode", "seq", "--nofork"], tag="shim-seq", timeout=to))
+    res.merge(vfw.run_shards(work, bins["races-prod512"], prop, tier, seed, 8, ["--mode", "libgomp", "--nofork"], tag="libgomp", timeout=to))
+    extra = {"tsan_reports": nrep, "tsan_distinct_reports": len(reports)}
+    return vfw.finalize(prop, tier, seed, res, t0, C12_RULE, assumptions=ASSUME_COMMON + [
+        "ThreadSanitizer sees all synchronisation because fork/join are plain pthread_create/pthread_join in the stand-in (stock libgomp is not used under TSan: its barriers are invisible to TSan)",
+        "the stand-in implements exactly the runtime symbols the library imports (checked with nm -u at every run)",
+        "races hidden inside inline asm cannot be seen (none of the library's asm statements has a memory output)"],
+        required=C12_REQUIRED, extra_cov=extra, replay_info={"harness": "races.cpp", "how": "./check C12 --replay <file>"})
+
+
 def replay(prop, path, work, seed):
     """Re-run the recorded violation: rebuild and run the same harness on the recorded case only."""
     rp = json.load(open(path))
